@@ -47,7 +47,9 @@ Step ==
      ELSE IF ev.op = "repush" /\ eres = "" THEN
         /\ RePush(ev.b) /\ poolPrev' = poolPrev \cup pool /\ UNCHANGED <<l, div, taint, devAll, pend>>
      ELSE IF ev.op = "minetrunc" /\ eres = "" /\ ptr # ltip THEN      \* the round first walks the state to the ledger tip
-        /\ Tick /\ poolPrev' = poolPrev \cup pool /\ UNCHANGED <<l, div, pend>> /\ devAll' = devAll \cup dev' /\ taint' = (dev' # {})
+        \* (when that walk fails the round fails: "mining walk failed")
+        /\ Tick /\ poolPrev' = poolPrev \cup pool /\ UNCHANGED <<l, div>> /\ devAll' = devAll \cup dev' /\ taint' = (dev' # {})
+        /\ pend' = (IF hist'[Len(hist')].res = "ok" THEN "" ELSE "fail")
      ELSE IF ev.op = "minetrunc" /\ eres = "" THEN
         /\ ETruncBegin(ev.d, IF ev.res = "ok" THEN ev.txs ELSE <<"*">>, Range(ev.obs.pool) \cup Range(ev.txs))
         /\ poolPrev' = poolPrev \cup pool /\ UNCHANGED <<l, div, taint, devAll, pend>>
